@@ -399,6 +399,15 @@ def expMatches (c : Ctx) (e : Expansion) (tok t : Str) : Bool :=
   | .wildcard _ => isPrefix (wildPrefix tok) t && wildMatch tok t
   | .regex _ => isPrefix (rxPrefix tok) t && c.rx tok t
 
+/-- candidate test of a pattern group on one dictionary term, as the documented semantics reads
+it (no literal-prefix shortcut) -/
+def patMatches (c : Ctx) (e : Expansion) (tok t : Str) : Bool :=
+  match e with
+  | .exact => t == tok
+  | .pfx _ => isPrefix tok t
+  | .wildcard _ => wildMatch tok t
+  | .regex _ => c.rx tok t
+
 def Expansion.cap : Expansion → Nat
   | .exact => 0
   | .pfx n => n
@@ -759,9 +768,7 @@ def termOk (c : Ctx) (g : Group) (f t : Str) : Bool :=
         (g.score && (match c.fuzzy with
           | some fz => min fz.maxEdits 2 != 0 && fuzzyOk fz tok t
           | none => false)))
-  | .pfx _ => !t.isEmpty && (patternTokens c f g.term).any (fun tok => isPrefix tok t)
-  | .wildcard _ => !t.isEmpty && (patternTokens c f g.term).any (fun tok => wildMatch tok t)
-  | .regex _ => !t.isEmpty && (patternTokens c f g.term).any (fun tok => c.rx tok t)
+  | e => !t.isEmpty && (patternTokens c f g.term).any (fun tok => patMatches c e tok t)
 
 /-- a term group matches a document: some field has a term satisfying it -/
 def group (c : Ctx) (d : ADoc) (g : Group) : Bool :=
@@ -825,15 +832,6 @@ end Spec
 
 /-! ## decidable side conditions of the refinement theorem (also reported by the driver) -/
 
-/-- candidate test of a pattern group on one dictionary term, as the documented semantics reads
-it (no literal-prefix shortcut) -/
-def patMatches (c : Ctx) (e : Expansion) (tok t : Str) : Bool :=
-  match e with
-  | .exact => t == tok
-  | .pfx _ => isPrefix tok t
-  | .wildcard _ => wildMatch tok t
-  | .regex _ => c.rx tok t
-
 /-- fuzzy candidates of one token over all segments, before the `max_expansions` cut -/
 def fuzzyCands (segs : List Seg) (f tok : Str) (fz : Fuzzy) : List Str :=
   segs.foldl (fun seen s =>
@@ -889,6 +887,35 @@ def groupComplete (c : Ctx) (segs : List Seg) (g : Group) : Bool :=
 
 def expansionsComplete (c : Ctx) (segs : List Seg) (q : Q) : Bool :=
   (plan c true q).groups.all (groupComplete c segs)
+
+
+mutual
+/-- syntactic sufficient condition for `coveredByScoredTerms`: every document satisfying the
+query necessarily contains one of its scored terms -/
+def forces (sc : Bool) : Q → Bool
+  | .matchAll => false
+  | .term _ _ => sc
+  | .pfx _ _ _ => sc
+  | .wildcard _ _ _ => sc
+  | .regex _ _ _ => sc
+  | .phrase _ _ _ => false
+  | .queryString q _ => sc && !(parseQuery q).terms.isEmpty
+  | .multiMatch q _ _ opAnd msm =>
+    sc && (match resolveMsm msm (parseQuery q).terms.length opAnd with
+      | some k => decide (1 ≤ k)
+      | none => false)
+  | .disMax qs => forcesAll sc qs
+  | .bool must should _ filter msm =>
+    forcesAny sc must ||
+      (decide (1 ≤ msm.getD (defaultMinShould should.length must.length filter.length)) && forcesAll sc should)
+  | .constantScore _ => false
+def forcesAll (sc : Bool) : List Q → Bool
+  | [] => true
+  | q :: qs => forces sc q && forcesAll sc qs
+def forcesAny (sc : Bool) : List Q → Bool
+  | [] => false
+  | q :: qs => forces sc q || forcesAny sc qs
+end
 
 /-- every wanted document is visited: the request has no scored term at all (full scan), or the
 document is listed under one of the scored terms -/
